@@ -128,6 +128,7 @@ Theorem c18_pbes2 : forall a r v, view_spec a r v ->
   match v_p2c v with
   | Some c => fam a "PBES2" = true /\ ea_direct a = false
               /\ c = match r_p2c r with Some x => x | None => ea_p2c a end
+              /\ (1 <=? c) && (c <=? 2147483647) = true      (* compute_derived_key refuses any other count *)
   | None => fam a "PBES2" = false \/ ea_direct a = true
   end.
 Proof. intros a r v H. exact (proj2 (proj2 H)). Qed.
